@@ -1,6 +1,8 @@
 pub mod conf;
 pub mod dnsconv;
 pub mod engine;
+pub mod fuzz_entry;
+pub mod fuzzdrv;
 pub mod ethip;
 pub mod hist;
 pub mod mutate;
@@ -58,6 +60,12 @@ pub fn prepare_wire(id: &str) -> Result<bool, String> {
 
 /// Run one property's check; returns the exit code.
 pub fn run_check(id: &str, tier: Tier) -> i32 {
+    if std::env::var("VCHECK_ONLY").as_deref() == Ok("libfuzzer") {
+        // development aid: only the coverage-guided tier (evidence is written as usual)
+        let ctx = Ctx::new(id, tier, level_of(id));
+        fuzzdrv::run_for(&ctx, id);
+        return ctx.finish();
+    }
     let wire = prepare_wire(id);
     let ctx = Ctx::new(id, tier, level_of(id));
     let wire_ok = match &wire {
@@ -117,6 +125,7 @@ pub fn run_check(id: &str, tier: Tier) -> i32 {
         "C14" => {
             ctx.rule("structured: generated messages (1..2000 records, names sharing suffixes at every depth incl. ladders in which the k-th name extends the (k-1)-th by one label up to 126 levels (pointer chains as long as the name), all rdata kinds, EDNS options) -> erbium DNSPkt -> serialise -> crate parser (equality) and independent RFC 1035 decoder (field-by-field at RFC bit positions, pointer audit); bytes: harness-encoded messages under three compression modes with 0..2 byte edits, accepted inputs re-encoded and compared; non-trivial = pointer inside rdata, or > 16 KiB, or EDNS options / accepted multi-record input");
             props_codec::run_c14_func(&ctx);
+            fuzzdrv::run_for(&ctx, "C14");
         }
         "C03" => {
             ctx.rule("relay: generated client queries (names of 1..7 labels with arbitrary octets and mixed case, any type but ANY, EDNS sizes/DO/NSID/cookie/unknown options, CD/AD, UDP and TCP, IPv4-mapped and IPv6 sources) x generated upstream replies (any rcode incl. extended, 0..24 records over three sections, every rdata kind erbium re-encodes plus opaque types, compression off/owners/all) through the real erbium-dns with a scripted upstream; a quarter asked again after 0..2.1 s (cache); oracle: independent RFC 1035 decoder on both sides: id, QR, question, rcode, the three sections record by record, TTL equal / aged; non-trivial = upstream reply with authority or additional records, non-zero rcode or name-bearing rdata");
@@ -155,6 +164,7 @@ pub fn run_check(id: &str, tier: Tier) -> i32 {
             ctx.rule("bytes: (1) complete enumeration of the single-position family over harness-built seed packets of every protocol (each octet := 12 boundary values and +-1, each 16-bit position := 12 boundary values, every truncation point), (2) committed corpus, (3) generated multi-edit mutations (set/flip/truncate/insert/delete/duplicate) and random bytes 0..65535; each input goes through the decoder and then through what the handler does with the decoded value (option accessors, logging formatters, handle_pkt, reply serialisation, frame build); oracle: returns, no panic/overflow, < 30 s CPU; non-trivial = input accepted by the decoder (handler code ran) or a failure");
             ctx.assume("frames shorter than 14 octets cannot be delivered to the LLDP service by the kernel; the LLDP target starts after the Ethernet header");
             props_crash::run_c05_func(&ctx);
+            fuzzdrv::run_for(&ctx, "C05");
             if wire_ok && ctx.violations.lock().unwrap().is_empty() {
                 ctx.rule("wire-dns: batches of 16..64 hostile byte strings (seed packets, members of the boundary family, extra edits) delivered to the real erbium-dns as UDP datagrams, as TCP frames, and as upstream replies over UDP and over TCP; after every batch: no panic line in the server log, process alive, a well-formed query over UDP and over TCP answered with its own answer");
                 props_dnswire2::run_c05_wire(&ctx);
@@ -200,6 +210,7 @@ pub fn run_check(id: &str, tier: Tier) -> i32 {
             ctx.rule("load-and-serve: (1) the manual's examples, the shipped example file (as is and uncommented) and a full-grammar document must load; (2) complete single-substitution family over them (every node replaced by each wrong type / empty collection / boundary number / hostile string, every key replaced or deleted); (3) generated double substitutions; (4) generated byte/token mutations of the texts; every document goes through the real loader, every accepted configuration is used to serve DHCP (DISCOVER/REQUEST on the first host of every configured prefix, with every configured hardware address, all options requested), to build and serialise an RA per interface, and to decide ACLs for IPv4/IPv6/mapped/unix clients; oracle: Ok or Err with text, no panic; non-trivial = rejected by a typed section parser or accepted and served");
             ctx.assume("yaml-rust recursion depth: documents nesting deeper than 64 and documents using anchors/aliases are not executed (counted)");
             props_conf::run_c19(&ctx);
+            fuzzdrv::run_for(&ctx, "C19");
         }
         "C06" => {
             ctx.rule("cache-model: generated query sequences (keys with near misses: label/type/DO/CD/case; replies with 0..12 records, TTLs {0,1,2,59,600,2^31,2^32-1,random} over three sections, cached error kinds) x clock moves (fixed steps and placements at +-2 s around the entry's smallest TTL in 250 ms steps) x sweeps, driven through the cache's own functions in handle_query order under tokio's paused clock; oracle: reference cache model; non-trivial = near-miss lookup, hit within 1 s of expiry, or hit on a reply with >=2 distinct TTLs in >=2 sections");
@@ -250,7 +261,8 @@ pub fn run_replay(path: &str) -> i32 {
         .or_else(|| props_conf::replay(id, sub, case))
         .or_else(|| props_ra::replay(id, sub, case))
         .or_else(|| props_acl::replay(id, sub, case))
-        .or_else(|| props_policy::replay(id, sub, case));
+        .or_else(|| props_policy::replay(id, sub, case))
+        .or_else(|| fuzzdrv::replay(sub, case));
     let res = match res {
         Some(r) => Some(r),
         None => {
